@@ -788,6 +788,77 @@ fn decode_cases(run: &mut Run, seed: u64, out: &mut Out, frames: &[(String, Stri
     }
 }
 
+/// ONE decoder (with the reference dictionary registered, when there is one) decoding all reference frames one after
+/// the other, dictionary frames in between and at the end: per-frame state that a build resets only under one of the
+/// features shows up as a digest line that differs between builds (scope `all`: identical in all four).
+fn reuse_cases(run: &mut Run, dir: &str, out: &mut Out) {
+    let mut names: Vec<String> = std::fs::read_dir(dir).map(|d| d.filter_map(|e| e.ok()).map(|e| e.file_name().to_string_lossy().to_string()).collect()).unwrap_or_default();
+    names.sort();
+    let stems: Vec<String> = names.iter().filter_map(|n| n.strip_suffix(".zst").map(|s| s.to_string())).collect();
+    let (dicty, plain): (Vec<String>, Vec<String>) = stems.into_iter().partition(|s| s.starts_with("dict_"));
+    // order: plain …, dict frame, plain (big) …, dict frame again, …
+    let mut order: Vec<String> = vec![];
+    for (k, p) in plain.iter().enumerate() {
+        order.push(p.clone());
+        if !dicty.is_empty() && (k % 3 == 2 || k + 1 == plain.len()) {
+            order.push(dicty[(k / 3) % dicty.len()].clone());
+        }
+    }
+    for strat in 0..2u64 {
+        let mut dec = FrameDecoder::new();
+        let mut have_dict = false;
+        if let Ok(raw) = std::fs::read(format!("{}/reference.dict", dir)) {
+            if let Ok(d) = ruzstd::decoding::Dictionary::decode_dict(&raw) {
+                have_dict = dec.add_dict(d).is_ok();
+            }
+        }
+        run.stat("codec:reuse_histories", 1);
+        for (k, stem) in order.iter().enumerate() {
+            if stem.starts_with("dict_") && !have_dict {
+                continue;
+            }
+            let frame = std::fs::read(format!("{}/{}.zst", dir, stem)).unwrap_or_default();
+            let expect = std::fs::read(format!("{}/{}.raw", dir, stem)).ok();
+            let a = guarded(|| {
+                let mut src = &frame[..];
+                if let Err(e) = dec.reset(&mut src) {
+                    return format!("err reset {}", canon_dbg(&format!("{:?}", e)));
+                }
+                let mut got: Vec<u8> = vec![];
+                let mut rounds = 0;
+                while !dec.is_finished() && rounds < 100_000 {
+                    rounds += 1;
+                    let s = if strat == 0 { BlockDecodingStrategy::All } else { BlockDecodingStrategy::UptoBlocks(1) };
+                    if let Err(e) = dec.decode_blocks(&mut src, s) {
+                        return format!("err decode {} out={}", canon_dbg(&format!("{:?}", e)), digest(&got));
+                    }
+                    if strat == 1 {
+                        if let Some(v) = dec.collect() {
+                            got.extend_from_slice(&v);
+                        }
+                    }
+                }
+                if let Some(v) = dec.collect() {
+                    got.extend_from_slice(&v);
+                }
+                format!("ok {} read={}", digest(&got), dec.bytes_read_from_source())
+            })
+            .unwrap_or_else(|_| "fault".into());
+            run.stat("codec:reuse_frames", 1);
+            if stem.starts_with("dict_") {
+                run.stat("codec:reuse_dict_frames", 1);
+            }
+            if let Some(exp) = &expect {
+                run.oracle_checks += 1;
+                if !a.starts_with(&format!("ok {} ", digest(exp))) {
+                    run.fail("C18", "reused_decoder_wrong", format!("variant {}: frame {} as number {} on a reused decoder (strategy {}): {}", variant(), stem, k, strat, a), format!("# reference frames in order {:?}, one FrameDecoder, strategy {}", &order[..=k], strat));
+                }
+            }
+            out.digests.push(format!("all reuse{}:{}:{} {}", strat, k, stem, a));
+        }
+    }
+}
+
 pub fn variant() -> String {
     format!("{}-{}", if cfg!(feature = "std") { "std" } else { "nostd" }, if cfg!(feature = "hash") { "hash" } else { "nohash" })
 }
@@ -822,9 +893,13 @@ pub fn run(opts: &Opts) -> Run {
             if let Some(stem) = n.strip_suffix(".zst") {
                 let frame = std::fs::read(format!("{}/{}", dir, n)).unwrap_or_default();
                 let expect = std::fs::read(format!("{}/{}.raw", dir, stem)).ok();
+                if stem.starts_with("dict_") {
+                    continue; // needs the dictionary: used by `reuse_cases` only
+                }
                 frames.push(("all".into(), format!("ref:{}", stem), frame, expect));
             }
         }
+        reuse_cases(&mut run, &dir, &mut out);
         run.stat("codec:reference_frames", frames.iter().filter(|f| f.0 == "all").count() as u64);
     }
     decode_cases(&mut run, opts.seed, &mut out, &frames, if opts.thorough { 28 } else { 8 });
